@@ -187,7 +187,20 @@ def check(s):
             outs.add(ev_target(tg, suf) if tg is not None else None)
         if len(outs) != 1 or None in outs:
             return None, "the path handed to Equinox is not the raw path or path.with_suffix(<literal>)"
-        return eqx_rule(outs.pop()), ""
+        opened_file = eqx_rule(outs.pop())
+        # an existence test the side makes itself (`path.is_file()`, `path.exists()`, `os.path.exists(path)`) looks at the LITERAL spelling:
+        # it has to be the file that is opened, or the side refuses names whose suffix Equinox would have completed
+        for h in hits:
+            for t, v in h.conds:
+                for c in walk(t):
+                    lit = None
+                    if isinstance(c, tuple) and c and c[0] == "call" and isinstance(c[1], tuple) and c[1][0] == "attr" and c[1][2] in ("is_file", "exists") and not c[2]:
+                        lit = ev_target(c[1][1], suf)
+                    elif isinstance(c, tuple) and c and c[0] == "call" and c[1] in (("global", "os.path.exists"), ("global", "os.path.isfile")) and len(c[2]) == 1:
+                        lit = ev_target(c[2][0], suf)
+                    if lit is not None and lit != opened_file:
+                        return None, f"an existence test on the literal spelling (suffix {lit!r}) guards a file that is opened with suffix {opened_file!r}"
+        return opened_file, ""
 
     def wtarget(p_):
         ws = [e for e in p_.effects if isinstance(e[1], tuple) and e[1][0] == "call" and e[1][1] == ("global", "equinox.tree_serialise_leaves")]
